@@ -314,7 +314,7 @@ RecycleOne(w, c) ==
     ELSE PutConn(w, c)
 
 FromSlave(kind) == CASE User = "ro"  -> TRUE
-                     [] User = "rws" -> kind = "read"
+                     [] User = "rws" -> kind \in {"read", "stream"}
                      [] OTHER        -> FALSE
 
 ExecUnshard(w, kind) ==                               \* ExecuteSQL on the default slice
@@ -483,6 +483,10 @@ Sharded(S, kind, first, f, mid) == /\ alive /\ nc < MaxCmds
 (* everything to the master; only a read-only user distinguishes a locking read from a write. *)
 StmtKinds == CASE User = "rw" -> {"write"} [] User = "rws" -> {"read", "write"} [] OTHER -> {"read", "write", "lockread"}
 ShardKinds == StmtKinds \ {"lockread"}
+(* "stream": an unsharded read whose result is streamed to the client in several chunks: the     *)
+(* connection stays with the session (Session.continueConn) until the response is written and is *)
+(* then released by recycleContinueConn under the same rules as after any other statement.       *)
+UnshardKinds == StmtKinds \cup {"stream"}
 Ping(f)             == Command("ping", {}, "none", 0, f, FALSE)
 Quit(f)             == Command("quit", {}, "none", 0, f, FALSE)
 
@@ -494,7 +498,7 @@ Next ==
     \/ \E f \in FaultsFor({"rollback"}, Slices) : Rollback(f)
     \/ \E f \in FaultsFor({"setac"}, Slices) : SetAutocommit0(f)
     \/ \E f \in FaultsFor({"setac"}, Slices) : SetAutocommit1(f)
-    \/ \E kind \in StmtKinds, f \in FaultsFor(StmtOps, {0}), mid \in BOOLEAN : Unsharded(kind, f, mid)
+    \/ \E kind \in UnshardKinds, f \in FaultsFor(StmtOps, {0}), mid \in BOOLEAN : Unsharded(kind, f, mid)
     \/ \E S \in SliceSets, kind \in ShardKinds, first \in Slices :
           \E f \in FaultsFor(StmtOps, S), mid \in BOOLEAN : Sharded(S, kind, first, f, mid)
     \/ \E f \in FaultsFor({"ping"}, Slices) : Ping(f)
